@@ -17,18 +17,21 @@
 EXTENDS SemBatch
 
 Facts == ndJsonDeserialize("facts.ndjson")
-\* Facts[p] = [edges, resolve : <<<<site, line>>>>, reach, allfuncs, fr_all, fr_nomain, fr_noinit, fr_none : <<line>>]
+\* Facts[p] = [edges, resolve : <<<<site, line, inst>>>>, reachi : <<<<line, inst>>>>, reach, allfuncs, fr_all, fr_nomain, fr_noinit, fr_none : <<line>>]
 
 PairSet(q) == {<<q[j][1], q[j][2]>> : j \in 1 .. Len(q)}
+TripleSet(q) == {<<q[j][1], q[j][2], q[j][3]>> : j \in 1 .. Len(q)}
+\* type arguments of an instantiated generic function ("" otherwise): two instantiations share one declaration line
+Inst(pp, f) == Progs[pp].inst[f]
 SeqToSet(q)   == {q[j] : j \in 1 .. Len(q)}
 
 Decl(pp, f) == Progs[pp].decl[f]
 
 IsCall(e) == e.e \in {"call", "go"}
 
-EdgeOK(pp, e)    == e.a = 0 \/ <<e.a, Decl(pp, e.s)>> \in PairSet(Facts[pp].edges)
-ExecOK(pp, e)    == Decl(pp, e.s) \in SeqToSet(Facts[pp].reach)
-ResolveOK(pp, e) == e.a = 0 \/ <<e.a, Decl(pp, e.s)>> \in PairSet(Facts[pp].resolve)
+EdgeOK(pp, e)    == e.a = 0 \/ <<e.a, Decl(pp, e.s), Inst(pp, e.s)>> \in TripleSet(Facts[pp].edges)
+ExecOK(pp, e)    == <<Decl(pp, e.s), Inst(pp, e.s)>> \in PairSet(Facts[pp].reachi)
+ResolveOK(pp, e) == e.a = 0 \/ <<e.a, Decl(pp, e.s), Inst(pp, e.s)>> \in TripleSet(Facts[pp].resolve)
 ReachOK(pp, e)   == Decl(pp, e.s) \in SeqToSet(Facts[pp].fr_all)
 
 Sound_C12 == \A e \in ev : IsCall(e) => EdgeOK(p, e) /\ ExecOK(p, e) /\ ResolveOK(p, e)
